@@ -76,6 +76,7 @@ def run(ctx, rep):
 def bisect(ctx, rep):
     prog = ctx.prog
     fn = prog.func(OPT + 'bisect')
+    _NF_CTX['prog'], _NF_CTX['fn'] = prog, fn
     fp, lo, hi = fn.params[0], fn.params[1], fn.params[2]
     al = aliases(fn, [lo, hi])
     asserts = [s for s in fn.body() if isinstance(s, (ast.Assert, ast.If))]
@@ -85,18 +86,30 @@ def bisect(ctx, rep):
     for s in asserts:
         if s.lineno > first_loop:
             continue
-        test = s.test
-        negate = isinstance(s, ast.If)  # `if bad: raise`
-        if negate and not any(isinstance(x, ast.Raise) for x in s.body):
+        if isinstance(s, ast.If) and not any(isinstance(x, ast.Raise) for x in s.body):
             continue
-        for c in ast.walk(test):
+        base_neg = isinstance(s, ast.If)  # `if bad: raise` : the test must be false to continue
+        for c in ast.walk(s.test):
             if isinstance(c, ast.Compare) and len(c.ops) == 1 and isinstance(c.left, ast.Call) and isinstance(c.left.func, ast.Name) \
                     and c.left.func.id == fp and c.left.args and isinstance(c.left.args[0], ast.Name) and c.left.args[0].id in al \
                     and const_value(c.comparators[0]) in (0, 0.0):
+                # number of `not` between the test root and the comparison; .all() keeps polarity, .any() does too for our purpose
+                negs = 0
+                p = c
+                while p is not s.test and p is not None:
+                    p = p._parent
+                    if isinstance(p, ast.UnaryOp) and isinstance(p.op, ast.Not):
+                        negs += 1
+                neg = base_neg ^ (negs % 2 == 1)
                 op = type(c.ops[0]).__name__
-                if negate:
+                red = c._parent._parent if isinstance(c._parent, ast.Attribute) else None
+                redname = c._parent.attr if isinstance(c._parent, ast.Attribute) else None
+                if neg:
                     op = {'Gt': 'LtE', 'Lt': 'GtE', 'GtE': 'Lt', 'LtE': 'Gt'}.get(op, op)
-                pre[al[c.left.args[0].id]] = (op, s)
+                    # not (x <= 0).all()  raises when ANY lane violates: required = all lanes satisfy the original test
+                    if redname == 'any':
+                        pass
+                pre[al[c.left.args[0].id]] = (op, s, redname, neg)
     rep.check('D1.pre', fn, pre.get(lo, (None, fn.node.name))[1], lo in pre and pre[lo][0] in ('LtE', 'Lt'),
               f'requires f({lo}) <= 0', f'no precondition f({lo}) <= 0 before the loop: a bracket whose lower end is above the root is accepted',
               construct=f'precondition on {lo}')
@@ -168,8 +181,10 @@ def bisect(ctx, rep):
         t = brk[0].test
         if isinstance(t, ast.Compare) and len(t.ops) == 1 and isinstance(t.ops[0], (ast.Lt, ast.LtE)) \
                 and isinstance(t.comparators[0], ast.Name) and t.comparators[0].id == tolp[0]:
-            names = {x.id for x in ast.walk(t.left) if isinstance(x, ast.Name)}
-            width = any(isinstance(x, ast.BinOp) and isinstance(x.op, ast.Sub) for x in ast.walk(t.left))
+            from ..idioms import resolve
+            pieces = [t.left] + [resolve(fn.node, x) for x in ast.walk(t.left) if isinstance(x, ast.Name) and x.id not in al]
+            names = {x.id for pc in pieces for x in ast.walk(pc) if isinstance(x, ast.Name)}
+            width = any(isinstance(x, ast.BinOp) and isinstance(x.op, ast.Sub) for pc in pieces for x in ast.walk(pc))
             is_max = any(isinstance(x, ast.Call) and call_name(x) in ('max', 'amax') for x in ast.walk(t.left))
             good = width and is_max and all(al.get(n) in (lo, hi) for n in names if n in al) and len([n for n in names if n in al]) >= 2
     rep.check('D5.tol', fn, brk[0] if brk else lp, good, 'stops when the widest bracket is below tol',
@@ -180,8 +195,24 @@ def _sym(op):
     return {'Lt': '<', 'LtE': '<=', 'Gt': '>', 'GtE': '>='}.get(op, op)
 
 
+_NF_CTX = {}
+
+
 def _is_midpoint(e, al, lo, hi):
-    """(xmin + xmax) / 2, 0.5 * (xmin + xmax), xmin + (xmax - xmin) / 2"""
+    """(xmin + xmax) / 2, 0.5 * (xmin + xmax), a private helper computing it, ... : compared through the AC normal form
+    with every alias of the bracket ends renamed to LO / HI."""
+    prog, fn = _NF_CTX.get('prog'), _NF_CTX.get('fn')
+    if prog is not None and e is not None:
+        ren = {k: ('LO' if v == lo else 'HI') for k, v in al.items()}
+        nf = NF(prog, fn, rename=ren)
+        got = nf.nf(e)
+        want = NF(prog, fn, rename={'LO': 'LO', 'HI': 'HI'}).nf(ast.parse('(LO + HI) / 2', mode='eval').body)
+        if got == want:
+            return True
+    return _is_midpoint_syntactic(e, al, lo, hi)
+
+
+def _is_midpoint_syntactic(e, al, lo, hi):
     if isinstance(e, ast.BinOp) and isinstance(e.op, ast.Div) and const_value(e.right) in (2, 2.0) and isinstance(e.left, ast.BinOp) \
             and isinstance(e.left.op, ast.Add):
         n = {getattr(e.left.left, 'id', None), getattr(e.left.right, 'id', None)}
